@@ -59,7 +59,9 @@ _DEPTH = re.compile(r"The depth of the complete state graph search is (\d+)")
 
 def _java_cmd(module_path, cfg, workers, metadir, extra, heap="2g", deque=False):
     gc = ["-XX:+UseSerialGC"] if workers == 1 else ["-XX:+UseParallelGC", "-XX:ParallelGCThreads=%d" % min(8, int(workers))]
-    cmd = ["java"] + gc + ["-XX:TieredStopAtLevel=4", "-Xmx" + heap, "-Xss64m"]
+    # TLC unpacks its standard modules into java.io.tmpdir at every start: keep that inside the
+    # run's metadir (removed afterwards) instead of littering /tmp
+    cmd = ["java"] + gc + ["-XX:TieredStopAtLevel=4", "-Xmx" + heap, "-Xss64m", "-Djava.io.tmpdir=" + metadir]
     if deque:
         cmd.append("-Dtlc2.tool.queue.IStateQueue=StateDeque")
     cmd += ["-cp", JAR, "tlc2.TLC", "-workers", str(workers), "-metadir", metadir,
